@@ -424,6 +424,8 @@ class Interposer:
             return n
         if mode == "byte":
             return 1
+        if mode == "thirds":
+            return max(1, (n + 2) // 3)  # every transfer is split in a few pieces (deterministic)
         r = self.chunk_rng.random()
         if r < 0.5:
             return n
